@@ -84,6 +84,18 @@ check("C04", "exploration",
       "that has a finally clause are not generated.",
       "bounded exhaustive enumeration of programs x all branch-decision vectors, path-in-graph oracle", "DESIGN.md §2 C04")
 
+check("C05", "exploration",
+      "Every Python scope tree from 6 shapes (module/def, def/def, sibling defs, class with method, def with two nested defs, def nested "
+      "in a method) x per-scope role of one name in {nothing, assign, read, assign+read, global+assign, nonlocal+assign} that compiles "
+      "and contains a read (626 programs quick, 1.2 k thorough), analysed by the real semantic pipeline. Every assignment writes a "
+      "unique constant, so the value set held for the name at a read names the declarations the read is bound to. Oracle: stdlib "
+      "symtable gives the variable each occurrence belongs to; the value CPython observes at the read (if assigned in the read's own or "
+      "an enclosing scope) must be in the observed set, and every observed value must have been assigned to that same variable - never a "
+      "sibling, inner or class-level one. Second oracle: renaming the name consistently leaves all observed sets unchanged.",
+      "Python only: JavaScript let/const/var scoping and multi-file import forms are not generated here (import forms are exercised "
+      "through call edges in C07 and C12). Reads inside class bodies are not generated. Binding observed through values.",
+      "bounded exhaustive enumeration of scope shapes, symtable + CPython oracle and rename metamorphic relation", "DESIGN.md §2 C05")
+
 check("C06", "exploration",
       "Every method with <=5 (thorough 6) statement nodes over definitions of x (each writing a unique constant), uses of x, if, "
       "if-else, while, for-in (nested <=2), break, continue, early return, with opaque conditions - 5460 methods / 12 k uses quick - "
